@@ -36,12 +36,13 @@ def gen_doc(rnd, xml, budget=14):
         if k < .35: emit(rnd.choice(['text', ' ', 'a b', 'x > y', '\n  ', 'é', '1 &lt; 2']))
         elif k < .5: emit('<!-- ' + rnd.choice(['c', '<div>', '</p>', 'a -- b', '<b x="1">']) + ' -->')
         elif k < .58: emit('<![CDATA[' + rnd.choice(['d', '<i>', ']] >', '</div>']) + ']]>')
-        elif k < .64: emit('<?' + rnd.choice(['php echo "<p>"; ', 'xml version="1.0"', 'x', 'php echo "?><span class=x>"; ', "php $a = '?></div>'; ", 'php echo "a\\"?><b>"; ']) + '?>')
+        elif k < .7: emit(rnd.choice(['</zz>', '</br>', '</q-x>', '</Zz >'.replace(' ', '')]))      # a stray closing tag: matches nothing that is open, changes nothing
+        elif k < .76: emit('<?' + rnd.choice(['php echo "<p>"; ', 'xml version="1.0"', 'x', 'php echo "?><span class=x>"; ', "php $a = '?></div>'; ", 'php echo "a\\"?><b>"; ']) + '?>')
 
     def attrs(rec):
         n = rnd.choice([0, 0, 1, 1, 2, 3])
         for _ in range(n):
-            emit(rnd.choice([' ', '  ', '\n\t']))
+            emit(rnd.choice([' ', '  ', '\n\t', '\r\n', '\r\n  ']))
             name = rnd.choice(['id', 'class', 'href', 'data-x', 'v:on', 'checked', 'x', '[ng]', '(click)', '#ref', '*if'])
             ns = pos[0]; emit(name); ne = pos[0]
             k = rnd.random()
@@ -93,7 +94,7 @@ def gen_doc(rnd, xml, budget=14):
             return rec
         name = rnd.choice(PAIRED)
         rec = Rec(name); s = pos[0]; emit('<' + name); attrs(rec)
-        if rnd.random() < .1: emit(' ')
+        if rnd.random() < .15: emit(rnd.choice([' ', '\r\n', '\r', '\n']))
         emit('>'); rec.open = (s, pos[0])
         while budget_[0] > 0 and depth < 5 and rnd.random() < .6:
             junk()
